@@ -2,10 +2,12 @@ SPECIFICATION Spec
 CONSTANTS
   Members = {"a", "b", "c", "d"}
   Waiters = {"w1", "w2"}
-  Kinds = {"ok", "error", "panic"}
+  Kinds = {"ok", "error", "panic", "eof", "canceled", "deadline"}
   Modes = {"gate", "ctx"}
+  Pres = {"new", "running", "finished"}
   Depth = 12
   Hook = TRUE
+  Sym = FALSE
 INVARIANT Inv
 CONSTRAINT EmitAll
 CHECK_DEADLOCK FALSE
